@@ -309,6 +309,28 @@ type cfg struct {
 	// instead of the top level.
 	ModuleDir string `json:"module_dir,omitempty"`
 	PerModule bool   `json:"per_module,omitempty"`
+	// TopUse (with ModuleDir and PerModule only): a workspace-level section `use: TopUse` is written next to
+	// the module-level section. A non-empty module-level section replaces the workspace-level one as a
+	// whole; an empty one (no key at all) leaves the workspace-level section in force.
+	TopUse []string `json:"top_level_use,omitempty"`
+}
+
+// sectionEmpty: the configuration writes no key into its lint / breaking section.
+func (c cfg) sectionEmpty() bool {
+	// v2 `disallow_comment_ignores: false` spells out the default value: it does not make a section non-empty
+	return len(c.Use) == 0 && len(c.Except) == 0 && len(c.Ignore) == 0 && len(c.IgnoreOnly) == 0 &&
+		(c.Type != "lint" || c.AllowComments == "" || (c.Version == "v2" && c.AllowComments == "on"))
+}
+
+// model is the configuration the reference model evaluates: c itself, except that an empty module-level
+// section falls back to the workspace-level section.
+func (c cfg) model() cfg {
+	if c.ModuleDir != "" && c.PerModule && len(c.TopUse) > 0 && c.sectionEmpty() {
+		m := c
+		m.Use = c.TopUse
+		return m
+	}
+	return c
 }
 
 func (c cfg) yaml() string {
@@ -351,10 +373,18 @@ func (c cfg) yaml() string {
 	out := "version: " + c.Version + "\n"
 	if c.ModuleDir != "" {
 		out += "modules:\n  - path: " + c.ModuleDir + "\n"
-		if c.PerModule && b.Len() > 0 {
-			out += "    " + c.Type + ":\n"
-			for _, l := range strings.Split(strings.TrimSuffix(b.String(), "\n"), "\n") {
-				out += "    " + l + "\n"
+		if c.PerModule && (b.Len() > 0 || len(c.TopUse) > 0) {
+			if b.Len() > 0 {
+				out += "    " + c.Type + ":\n"
+				for _, l := range strings.Split(strings.TrimSuffix(b.String(), "\n"), "\n") {
+					out += "    " + l + "\n"
+				}
+			}
+			if len(c.TopUse) > 0 {
+				out += c.Type + ":\n  use:\n"
+				for _, id := range c.TopUse {
+					out += fmt.Sprintf("    - %q\n", id)
+				}
 			}
 			return out
 		}
@@ -386,7 +416,11 @@ func (c cfg) commentsAllowed() bool {
 }
 
 func (c cfg) key() string {
-	return fmt.Sprintf("%s|%s|u=%s|e=%s|i=%s|io=%v|ac=%s|xi=%v|md=%s|pm=%v", c.Version, c.Type, strings.Join(c.Use, ","), strings.Join(c.Except, ","), strings.Join(c.Ignore, ","), c.IgnoreOnly, c.AllowComments, c.ExcludeImports, c.ModuleDir, c.PerModule)
+	k := fmt.Sprintf("%s|%s|u=%s|e=%s|i=%s|io=%v|ac=%s|xi=%v|md=%s|pm=%v", c.Version, c.Type, strings.Join(c.Use, ","), strings.Join(c.Except, ","), strings.Join(c.Ignore, ","), c.IgnoreOnly, c.AllowComments, c.ExcludeImports, c.ModuleDir, c.PerModule)
+	if len(c.TopUse) > 0 {
+		k += "|top=" + strings.Join(c.TopUse, ",")
+	}
+	return k
 }
 
 func annKey(a bufx.Annotation) string {
@@ -406,6 +440,79 @@ type source struct {
 	Spans    map[string]span
 	Comments []comment
 	Imports  map[string]bool
+	// breaking only: what the model knows about the against (old) image
+	AgainstImports map[string]bool // old path -> IsImport in the old image (also: the set of old files)
+	Moved          []movedDecl     // declarations whose file differs between the old and the new image
+	DeletedFile    string          // the one file that exists only in the old image
+}
+
+// fileRef is one file an annotation is located in: its current file and/or (breaking) its against file.
+type fileRef struct {
+	Path    string
+	Import  bool
+	Against bool
+}
+
+// filesOf lists the files an annotation is located in. Lint: the file of the annotation. Breaking: the
+// current file (if the annotation has one) and the against file: the old file of the moved declaration
+// the annotation lies in, the deleted file for an annotation without a current location, otherwise the
+// file of the same path in the old image (if there is one).
+func (s *source) filesOf(a bufx.Annotation) []fileRef {
+	var out []fileRef
+	if a.Path != "" {
+		out = append(out, fileRef{Path: a.Path, Import: s.Imports[a.Path]})
+	}
+	if s.AgainstImports == nil {
+		return out
+	}
+	if a.Path == "" {
+		if s.DeletedFile != "" {
+			out = append(out, fileRef{Path: s.DeletedFile, Import: s.AgainstImports[s.DeletedFile], Against: true})
+		}
+		return out
+	}
+	for _, m := range s.Moved {
+		if m.NewPath == a.Path && m.Start <= a.StartLine && a.StartLine <= m.End {
+			return append(out, fileRef{Path: m.OldPath, Import: s.AgainstImports[m.OldPath], Against: true})
+		}
+	}
+	if imp, ok := s.AgainstImports[a.Path]; ok {
+		out = append(out, fileRef{Path: a.Path, Import: imp, Against: true})
+	}
+	return out
+}
+
+// againstOnly: the predicate holds for the against file of the annotation and for no current file.
+func againstOnly(files []fileRef, pred func(fileRef) bool) bool {
+	hit := false
+	for _, f := range files {
+		if pred(f) {
+			if !f.Against {
+				return false
+			}
+			hit = true
+		}
+	}
+	return hit
+}
+
+func anyFile(files []fileRef, pred func(fileRef) bool) bool {
+	for _, f := range files {
+		if pred(f) {
+			return true
+		}
+	}
+	return false
+}
+
+// annUnderAny: the current or the against file of the annotation is one of the paths or lies in one of them.
+func (s *source) annUnderAny(c cfg, a bufx.Annotation, paths []string) bool {
+	return anyFile(s.filesOf(a), func(f fileRef) bool { return underAny(c.workspacePath(f.Path), paths) })
+}
+
+// annOnImport: the current or the against file of the annotation is an import-only file of its image.
+func (s *source) annOnImport(a bufx.Annotation) bool {
+	return anyFile(s.filesOf(a), func(f fileRef) bool { return f.Import })
 }
 
 // element returns the innermost named node whose span contains the line.
@@ -448,15 +555,29 @@ type suppression struct {
 }
 
 // suppressed decides, for an annotation produced by rule a.Type on its own, whether the configuration removes it.
+//
+// A breaking annotation has up to two locations (current file, against file); a path suppression or the
+// import filter applies when either of them matches. Relation "against-file" marks the cases where only
+// the against file matches (the signature of existing cases, Relation "", is unchanged).
 func suppressed(c cfg, a bufx.Annotation, ignoreOnly map[string][]string, src *source) suppression {
-	if src.Imports[a.Path] && (c.Type == "lint" || c.ExcludeImports) {
-		return suppression{Why: "import"}
+	files := src.filesOf(a)
+	rel := func(pred func(fileRef) bool) string {
+		if againstOnly(files, pred) {
+			return "against-file"
+		}
+		return ""
 	}
-	if underAny(c.workspacePath(a.Path), c.Ignore) {
-		return suppression{Why: "ignore"}
+	isImport := func(f fileRef) bool { return f.Import }
+	if (c.Type == "lint" || c.ExcludeImports) && anyFile(files, isImport) {
+		return suppression{Why: "import", Relation: rel(isImport)}
 	}
-	if underAny(c.workspacePath(a.Path), ignoreOnly[a.Type]) {
-		return suppression{Why: "ignore_only"}
+	ignored := func(f fileRef) bool { return underAny(c.workspacePath(f.Path), c.Ignore) }
+	if anyFile(files, ignored) {
+		return suppression{Why: "ignore", Relation: rel(ignored)}
+	}
+	ignoredOnly := func(f fileRef) bool { return underAny(c.workspacePath(f.Path), ignoreOnly[a.Type]) }
+	if anyFile(files, ignoredOnly) {
+		return suppression{Why: "ignore_only", Relation: rel(ignoredOnly)}
 	}
 	if c.Type == "lint" && c.commentsAllowed() && len(src.Comments) > 0 {
 		elem, ok := src.element(a.Path, a.StartLine)
